@@ -1,0 +1,174 @@
+//! Verification hooks, compiled only with `--cfg typeshare_verif` and inert unless one of the
+//! `TYPESHARE_VERIF_*` environment variables is set.
+//!
+//! * `TYPESHARE_VERIF_THREADS=n`   number of walker threads
+//! * `TYPESHARE_VERIF_ORDER=A,B,C` the collector buffers every result and folds them in the order
+//!   given by the first type name of each result
+//! * `TYPESHARE_VERIF_TRACE=path`  append one ndjson event per pipeline step, numbered under a
+//!   global lock (never wall-clock)
+//! * `TYPESHARE_VERIF_SCHEDULE=path` one `Event:file-stem` per line; a point listed there blocks
+//!   until every earlier line has been passed. A point not listed passes freely. A 2 s watchdog
+//!   releases every gate, so a schedule that cannot be followed degrades to a free run.
+use once_cell::sync::Lazy;
+use std::{
+    io::Write,
+    path::Path,
+    sync::{Condvar, Mutex},
+    time::{Duration, Instant},
+};
+use typeshare_core::parser::ParsedData;
+
+struct State {
+    seq: u64,
+    cursor: usize,
+    released: bool,
+    trace: Option<std::fs::File>,
+}
+
+static SCHEDULE: Lazy<Vec<String>> = Lazy::new(|| {
+    std::env::var("TYPESHARE_VERIF_SCHEDULE")
+        .ok()
+        .and_then(|p| std::fs::read_to_string(p).ok())
+        .map(|s| {
+            s.lines()
+                .map(|l| l.trim().to_string())
+                .filter(|l| !l.is_empty())
+                .collect()
+        })
+        .unwrap_or_default()
+});
+
+static STATE: Lazy<Mutex<State>> = Lazy::new(|| {
+    let trace = std::env::var("TYPESHARE_VERIF_TRACE").ok().and_then(|p| {
+        std::fs::OpenOptions::new()
+            .create(true)
+            .append(true)
+            .open(p)
+            .ok()
+    });
+    Mutex::new(State {
+        seq: 0,
+        cursor: 0,
+        released: false,
+        trace,
+    })
+});
+static COND: Condvar = Condvar::new();
+
+fn stem(path: &str) -> String {
+    Path::new(path)
+        .file_stem()
+        .map(|s| s.to_string_lossy().into_owned())
+        .unwrap_or_else(|| path.to_string())
+}
+
+fn esc(s: &str) -> String {
+    let mut o = String::new();
+    for c in s.chars() {
+        match c {
+            '"' => o.push_str("\\\""),
+            '\\' => o.push_str("\\\\"),
+            '\n' => o.push_str("\\n"),
+            c if (c as u32) < 0x20 => o.push_str(&format!("\\u{:04x}", c as u32)),
+            c => o.push(c),
+        }
+    }
+    o
+}
+
+/// One pipeline step: gate (if scheduled), then log (if tracing). Called after the state change
+/// it names, except `SendStart`, which is called before the (possibly blocking) send.
+pub fn point(ev: &str, file: &str, detail: &str) {
+    let key = format!("{ev}:{}", stem(file));
+    let mut st = match STATE.lock() {
+        Ok(g) => g,
+        Err(p) => p.into_inner(),
+    };
+    if let Some(idx) = SCHEDULE.iter().position(|l| *l == key) {
+        let deadline = Instant::now() + Duration::from_secs(2);
+        while !st.released && st.cursor < idx {
+            let now = Instant::now();
+            if now >= deadline {
+                st.released = true;
+                log(&mut st, "GateTimeout", file, &key);
+                break;
+            }
+            let (g, _) = match COND.wait_timeout(st, deadline - now) {
+                Ok(r) => r,
+                Err(p) => p.into_inner(),
+            };
+            st = g;
+        }
+        if st.cursor <= idx {
+            st.cursor = idx + 1;
+        }
+        COND.notify_all();
+    }
+    log(&mut st, ev, file, detail);
+}
+
+fn log(st: &mut State, ev: &str, file: &str, detail: &str) {
+    st.seq += 1;
+    let seq = st.seq;
+    let tid = format!("{:?}", std::thread::current().id());
+    if let Some(f) = st.trace.as_mut() {
+        let _ = writeln!(
+            f,
+            "{{\"seq\":{seq},\"ev\":\"{}\",\"file\":\"{}\",\"detail\":\"{}\",\"thread\":\"{}\"}}",
+            esc(ev),
+            esc(&stem(file)),
+            esc(detail),
+            esc(&tid)
+        );
+        let _ = f.flush();
+    }
+}
+
+/// Emits an event when dropped (declared first in a scope, it is dropped last).
+pub struct OnDrop(pub &'static str);
+impl Drop for OnDrop {
+    fn drop(&mut self) {
+        point(self.0, "", "");
+    }
+}
+
+/// Walker thread count override.
+pub fn threads() -> Option<usize> {
+    std::env::var("TYPESHARE_VERIF_THREADS")
+        .ok()
+        .and_then(|s| s.parse().ok())
+}
+
+/// First type name of a result (identifies the source file in test trees).
+pub fn first_name(r: &anyhow::Result<ParsedData>) -> String {
+    match r {
+        Ok(d) => d
+            .structs
+            .first()
+            .map(|s| s.id.original.clone())
+            .or_else(|| d.enums.first().map(|e| e.shared().id.original.clone()))
+            .or_else(|| d.aliases.first().map(|a| a.id.original.clone()))
+            .or_else(|| d.consts.first().map(|c| c.id.original.clone()))
+            .unwrap_or_default(),
+        Err(_) => String::new(),
+    }
+}
+
+/// Arrival-order override: with `TYPESHARE_VERIF_ORDER` set, drain the channel and hand the
+/// results to the collector in the requested order; otherwise pass the receiver through.
+pub fn reorder(
+    rx: crossbeam::channel::Receiver<anyhow::Result<ParsedData>>,
+) -> Box<dyn Iterator<Item = anyhow::Result<ParsedData>> + Send> {
+    match std::env::var("TYPESHARE_VERIF_ORDER") {
+        Ok(order) => {
+            let order: Vec<String> = order.split(',').map(|s| s.trim().to_string()).collect();
+            let mut all: Vec<_> = rx.into_iter().collect();
+            all.sort_by_key(|r| {
+                let n = first_name(r);
+                order.iter().position(|o| *o == n).unwrap_or(usize::MAX)
+            });
+            Box::new(all.into_iter())
+        }
+        Err(_) => Box::new(rx.into_iter()),
+    }
+}
